@@ -276,6 +276,9 @@ class Interp:
         self.models = _models.Models(self)
         self.call_depth = 0
         self.uncaught_codes = []
+        self.float_src = {}          # id of an int->float conversion term -> the integer term
+        self.cuts = {}               # function name -> (predicate(index, stmt, body) -> bool, [var names])
+        self.cut_defs = []           # (function, var, fresh CVal, defining CVal, guard)
 
     # ---------------------------------------------------------------- guards
 
@@ -397,7 +400,23 @@ class Interp:
         for p in params:
             if p not in bound:
                 raise CannotEncode(f'missing argument {p} for {func.qualname}')
+        fused_saved = {}
         if func.module.is_pyx:
+            # fused-type dispatch on the element type of buffer arguments (def functions only; cdef functions
+            # are instantiated by the caller's binding)
+            for p, v in list(bound.items()):
+                an = annots.get(p)
+                if an is not None and isinstance(an, ast.Constant) and isinstance(an.value, str) and an.value.endswith('[:]'):
+                    base = an.value[:-3].replace('const ', '').strip()
+                    if base in self.reg.types.fused and isinstance(v, SymSeq):
+                        members = self.reg.types.fused[base]
+                        match = [m for m in members if self.reg.types.resolve(m) == v.elem]
+                        if base not in fused_saved:
+                            fused_saved[base] = self.reg.fused_binding.get(base)
+                        if match:
+                            self.reg.fused_binding[base] = match[0]
+                        elif not func.is_cdef:
+                            self.raise_exc('TypeError')
             for p, v in list(bound.items()):
                 an = annots.get(p)
                 if an is not None and isinstance(an, ast.Constant) and isinstance(an.value, str):
@@ -412,12 +431,30 @@ class Interp:
         self.call_depth += 1
         try:
             try:
-                self.exec_block(node.body)
+                cut = self.cuts.get(func.name)
+                if cut is None:
+                    self.exec_block(node.body)
+                else:
+                    ncut = 0
+                    for i, st in enumerate(node.body):
+                        if self.inactive():
+                            break
+                        if cut[0](i, st, node.body):
+                            self.do_cut(func, cut[1])
+                            ncut += 1
+                        self.exec_stmt(st)
+                    if ncut != 1:
+                        raise CannotEncode(f'cut point in {func.qualname} matched {ncut} times (function restructured?)')
             except _Abort:
                 pass
         finally:
             self.frames.pop()
             self.call_depth -= 1
+            for k, v in fused_saved.items():
+                if v is None:
+                    self.reg.fused_binding.pop(k, None)
+                else:
+                    self.reg.fused_binding[k] = v
         if func.is_generator:
             return GuardedList(fr.yields)
         rv = fr.retval
@@ -428,6 +465,18 @@ class Interp:
         if self.raised is True:
             raise _Abort()
         return rv
+
+    def do_cut(self, func, names):
+        """Assume-guarantee cut: replace each C variable by a fresh symbol; record its defining term."""
+        fr = self.frame
+        for nm in names:
+            ct = fr.ctypes.get(nm)
+            old = fr.vars.get(nm, UNSET)
+            if not isinstance(ct, CType) or old is UNSET or ct.kind != 'int':
+                raise CannotEncode(f'cannot cut variable {nm} in {func.qualname}')
+            fresh = CVal(z3.BitVec(f'cut_{func.name}_{nm}_{len(self.cut_defs)}', ct.bits), ct)
+            self.cut_defs.append((func.name, nm, fresh, old, self.active()))
+            fr.vars[nm] = fresh
 
     def active_outside(self):
         return land(*self.guards, lnot(self.raised))
@@ -788,7 +837,20 @@ class Interp:
         return node.value
 
     def ex_JoinedStr(self, node):
-        return '<fstring>'
+        parts = []
+        for v in node.values:
+            if isinstance(v, ast.Constant):
+                parts.append(str(v.value))
+            else:
+                try:
+                    x = self.eval(v.value)
+                except CannotEncode:
+                    return '<fstring>'
+                if isinstance(x, (int, str, float)) and not isinstance(x, bool) and v.format_spec is None and v.conversion == -1:
+                    parts.append(str(x))
+                else:
+                    return '<fstring>'
+        return ''.join(parts)
 
     def ex_Name(self, node):
         name = node.id
@@ -1042,9 +1104,9 @@ class Interp:
                 return CVal(z3.fpFPToFP(RNE, v.term, fp_sort(ct)), ct)
             if v.concrete:
                 return CVal(np.float32(v.term) if ct.bits == 32 else float(v.term), ct)
-            if v.ctype.signed:
-                return CVal(z3.fpSignedToFP(RNE, v.term, fp_sort(ct)), ct)
-            return CVal(z3.fpUnsignedToFP(RNE, v.term, fp_sort(ct)), ct)
+            r = CVal(z3.fpSignedToFP(RNE, v.term, fp_sort(ct)) if v.ctype.signed else z3.fpUnsignedToFP(RNE, v.term, fp_sort(ct)), ct)
+            self.float_src[r.term.get_id()] = v.term
+            return r
         if isinstance(v, (bool, np.bool_)):
             v = int(v)
         if isinstance(v, (int, np.integer)):
@@ -1188,7 +1250,9 @@ class Interp:
                     f = np.float32 if ct.bits == 32 else float
                     with np.errstate(all='ignore'):
                         return CVal(f(a2.term) / f(b2.term), ct)
-                self.raise_exc('ZeroDivisionError', z3.fpIsZero(b2.z3()))
+                src = self.float_src.get(b2.z3().get_id()) if is_sym(b2.term) else None
+                # an int->float conversion is zero exactly when the int is zero
+                self.raise_exc('ZeroDivisionError', (src == 0) if src is not None else z3.fpIsZero(b2.z3()))
                 return CVal(z3.fpDiv(RNE, a2.z3(), b2.z3()), ct)
             fop = {ast.Add: (z3.fpAdd, lambda x, y: x + y), ast.Sub: (z3.fpSub, lambda x, y: x - y),
                    ast.Mult: (z3.fpMul, lambda x, y: x * y)}.get(type(op))
